@@ -146,7 +146,12 @@ func (r *request) buildHTTP(mediaType, basePath string, producers map[string]run
 	// check if this is a form type request
 	if len(r.formFields) > 0 || len(r.fileFields) > 0 {
 		if !r.isMultipart(mediaType) {
-			r.header.Set(runtime.HeaderContentType, mediaType)
+			// the fields are sent URL-encoded, whatever media type was picked for the operation
+			contentType := mediaType
+			if !strings.HasPrefix(strings.ToLower(mediaType), runtime.URLencodedFormMime) {
+				contentType = runtime.URLencodedFormMime
+			}
+			r.header.Set(runtime.HeaderContentType, contentType)
 			formString := r.formFields.Encode()
 			r.buf.WriteString(formString)
 			goto DoneChoosingBodySource
